@@ -137,19 +137,42 @@ Fixpoint after_first_comma (args : list tok) : list tok :=
   end.
 Definition css_fallback (args : list tok) : list tok := remove_whitespace (after_first_comma args).
 
-(* a token the rebuilding loop cannot handle: a var()-free function argument next to a var() *)
+(* a token the rebuilding loop can handle: inside a function that has a var() and is not var() itself, every
+   function argument has a var() too (a var()-free one raises TypeError) - checked wherever resolve_var goes *)
 Fixpoint regular (t : tok) : bool :=
   match t with
   | TFunc _ ln args =>
-      if has_var t && negb (String.eqb ln "var") then
+      if has_var t then
         (fix all (l : list tok) : bool :=
            match l with
            | [] => true
-           | a :: r => (if is_func a then has_var a && regular a else true) && all r
+           | a :: r => (if is_func a then (String.eqb ln "var" || has_var a) && regular a else true) && all r
            end) args
       else true
   | _ => true
   end.
+
+(* every custom property that resolve_var may look up from t (through function arguments and fallbacks) has a
+   rank below n *)
+Fixpoint refs_lt (rk : string -> nat) (n : nat) (t : tok) : bool :=
+  match t with
+  | TFunc _ ln args =>
+      if has_var t then
+        (if String.eqb ln "var" then
+           match fn_args args with TIdent v _ :: _ => Nat.ltb (rk (underscore v)) n | _ => true end
+         else true) &&
+        (fix all (l : list tok) : bool :=
+           match l with
+           | [] => true
+           | a :: r => refs_lt rk n a && all r
+           end) args
+      else true
+  | _ => true
+  end.
+
+(* acyclic definitions: the value of a custom property only refers to properties of lower rank *)
+Definition ranked (env : string -> list tok) (rk : string -> nat) : Prop :=
+  forall k, Forall (fun t => refs_lt rk (rk k) t = true /\ regular t = true) (env k).
 
 (* ------------------------------------------------------------------ judge of the stream var-direct *)
 Definition env_of (l : list (string * list tok)) (k : string) : list tok :=
